@@ -175,7 +175,7 @@ def make_initial(ctx, case, rng_lib):
         alt.solver_setting.n_lc_graphs = 2
         alt.solver_setting.lc_method = "lc_with_iso"
         res = alt.solve()
-        entries = list(alt.result) if alt.result is not None else list(res)
+        entries = list(res)
         circs = []
         for e in entries:
             c = e[0] if isinstance(e, (tuple, list)) else e
@@ -255,6 +255,8 @@ def run_case(case):
             if n_after < n_before:
                 did["rm"] += 1
                 ctx.probe("removal_happened")
+            if mv in ("add_emitter_one_qubit_op", "add_photon_one_qubit_op") and n_after == n_before:
+                ctx.probe("fallback_replace_used")
             ctx.log(step, mv, arg, n_after, [d[2] if not isinstance(d[2], list) else d[2][-1] for d in rng.draws[nd0:]])
             bad = photon_structure(circ)
             if bad:
